@@ -260,6 +260,34 @@ def mit_client_interop(wd):
              "accepted_by_gokrb5": sum(1 for x in lines if x["accepted"]), "rejected_lines": len(bad)}, [lines[i - 1] for i in bad])
 
 
+def mit_reply_cross(wd):
+    """KDCReplyCheck (the acceptance predicate of C09) against MIT's client on perturbed replies of the simulated KDC
+    (vh mitclient -cases, TraceMITReply).  Needs wd/cases.ndjson from GenC09."""
+    exe = build_mitref()
+    if exe is None:
+        return {"available": False}
+    d = os.path.join(wd, "mitreply")
+    os.makedirs(d, exist_ok=True)
+    trace = os.path.join(wd, "trace.ndjson")
+    keep = None
+    if os.path.exists(trace):
+        keep = trace + ".keep3"
+        os.rename(trace, keep)
+    try:
+        vlib.run_harness(["mitclient", "-out", trace, "-mitref", exe, "-dir", d, "-cases", os.path.join(wd, "cases.ndjson")], timeout=1200)
+        lines = vlib.read_ndjson(trace)
+        res = vlib.tlc_or_die(wd, "TraceMITReply", timeout=600)
+        bad = sorted(int(v) for v in res.tags("BADLINE"))
+        if res.distinct != len(lines) + 1:
+            raise vlib.Inconclusive("TraceMITReply: TLC visited %d states, expected %d" % (res.distinct, len(lines) + 1))
+    finally:
+        if keep:
+            os.replace(keep, trace)
+        shutil.rmtree(d, ignore_errors=True)
+    return {"available": True, "exchanges": len(lines), "accepted_by_mit": sum(1 for x in lines if x["mitStage"] == 7), "disagreements": len(bad),
+            "first": [{k: lines[i - 1][k] for k in ("kind", "et", "devs", "mitStage", "mitMsg")} for i in bad[:5]]}
+
+
 PAC_NOT_COMPARABLE = {
     "kdcdecl": "MIT does not look at the KDC signature's declared type when no KDC key is given; gokrb5 and the specification need it to know how many octets to zero",
     "rodc": "MIT 1.20 zeroes the whole remainder of a signature buffer, RODC identifier included; [MS-PAC] 2.8 zeroes the Signature field only (the specification follows MS-PAC)",
